@@ -2789,4 +2789,488 @@ theorem evaluator_stateless' {σ : Type} (c : Config) (jobs : List (Learner σ V
     (jobs.map (fun j => evaluate c j.1 j.2.1 j.2.2.1 j.2.2.2))[k]? = (jobs[k]?).map (fun j => evaluate c j.1 j.2.1 j.2.2.1 j.2.2.2) :=
   List.getElem?_map
 
+/-! ## batched counterparts of the trace and row theorems -/
+
+theorem specRunB_steps {σ : Type} {c : Config} {fl : Flags} (L : Learner σ V) (chs : List (List (View V R))) (s : σ)
+    (r : σ × List (Call V) × List (Row V R)) (h : specRunB c fl L s chs = some r) :
+    ∃ steps : List (σ × σ × List (Call V) × List (Row V R)),
+      steps.length = chs.length ∧ r.2.1 = (steps.map (·.2.2.1)).flatten ∧ r.2.2 = (steps.map (·.2.2.2)).flatten ∧
+      ∀ cst ∈ chs.zip steps, specChunk c fl L cst.2.1 cst.1 = some cst.2.2 := by
+  induction chs generalizing s r with
+  | nil =>
+    simp only [specRunB, Option.some.injEq] at h
+    subst h
+    exact ⟨[], rfl, rfl, rfl, by simp⟩
+  | cons ch rest ih =>
+    simp only [specRunB, Option.bind_eq_some_iff, Option.map_eq_some_iff] at h
+    obtain ⟨r1, h1, r2, h2, hr⟩ := h
+    subst hr
+    obtain ⟨st, hs1, hs2, hs3, hs4⟩ := ih r1.1 r2 h2
+    refine ⟨(s, r1) :: st, by simp [hs1], by simp [hs2], by simp [hs3], ?_⟩
+    intro cst hcst
+    simp only [List.zip_cons_cons, List.mem_cons] at hcst
+    rcases hcst with hcst | hcst
+    · subst hcst; exact h1
+    · exact hs4 cst hcst
+
+theorem predictS_length {σ : Type} (L : Learner σ V) (s : σ) (vs : List (View V R)) : (predictS L s vs).2.length = vs.length := by
+  induction vs generalizing s with
+  | nil => rfl
+  | cons v vs ih => simp [predictS, ih]
+
+theorem scoreS_length {σ : Type} (L : Learner σ V) (s : σ) (vs : List (View V R)) : (scoreS L s vs).2.length = vs.length := by
+  induction vs generalizing s with
+  | nil => rfl
+  | cons v vs ih => simp [scoreS, ih]
+
+theorem allSome_length {α : Type} (l : List (Option α)) (r : List α) (h : allSome l = some r) : r.length = l.length := by
+  induction l generalizing r with
+  | nil => simp only [allSome, Option.some.injEq] at h; subst h; rfl
+  | cons x xs ih =>
+    cases x with
+    | none => simp [allSome] at h
+    | some a =>
+      simp only [allSome, Option.map_eq_some_iff] at h
+      obtain ⟨r', hr', rfl⟩ := h
+      simp [ih r' hr']
+
+theorem zip3With_length {α β γ δ : Type} (f : α → β → γ → δ) (as : List α) (bs : List β) (cs : List γ)
+    (h1 : bs.length = as.length) (h2 : cs.length = as.length) : (zip3With f as bs cs).length = as.length := by
+  induction as generalizing bs cs with
+  | nil => cases bs <;> cases cs <;> simp [zip3With]
+  | cons a as ih =>
+    cases bs with
+    | nil => simp at h1
+    | cons b bs =>
+      cases cs with
+      | nil => simp at h2
+      | cons c cs => simp [zip3With, ih bs cs (by simpa using h1) (by simpa using h2)]
+
+theorem allSome_zip3With {α β γ δ : Type} (f : α → β → γ → Option δ) (as : List α) (bs : List β) (cs : List γ) (r : List δ)
+    (h : allSome (zip3With f as bs cs) = some r) : ∀ ar ∈ as.zip r, ∃ b c, f ar.1 b c = some ar.2 := by
+  induction as generalizing bs cs r with
+  | nil => intro ar har; simp at har
+  | cons a as ih =>
+    cases bs with
+    | nil => simp only [zip3With, allSome, Option.some.injEq] at h; subst h; intro ar har; simp at har
+    | cons b bs =>
+      cases cs with
+      | nil => simp only [zip3With, allSome, Option.some.injEq] at h; subst h; intro ar har; simp at har
+      | cons c cs =>
+        simp only [zip3With, allSome] at h
+        cases hf : f a b c with
+        | none => rw [hf] at h; simp [allSome] at h
+        | some d =>
+          rw [hf] at h
+          simp only [allSome, Option.map_eq_some_iff] at h
+          obtain ⟨r', hr', rfl⟩ := h
+          intro ar har
+          simp only [List.zip_cons_cons, List.mem_cons] at har
+          rcases har with har | har
+          · subst har; exact ⟨b, c, hf⟩
+          · exact ih bs cs r' hr' ar har
+
+theorem rowSB_extras {c : Config} {fl : Flags} {np : Bool} {v : View V R} {p : Option (Pred V)} {er : Option Rat} {row : Row V R}
+    (hrow : rowSB c fl np v p er = some row) :
+    ∃ pre : Row V R, row = pre ++ v.extras.map (fun kv => (kv.1, Cell.fld kv.2)) ∧ ∀ b ∈ pre, b.1 ∈ implicitExclude := by
+  simp only [rowSB, Option.map_eq_some_iff] at hrow
+  obtain ⟨rw, hrw, hrow⟩ := hrow
+  subst hrow
+  refine ⟨_, rfl, ?_⟩
+  intro b hb
+  have hrwk : ∀ b ∈ rw, b.1 = "rewards" := by
+    intro b hb
+    unfold rewardsCellS at hrw
+    split at hrw
+    · split at hrw
+      · split at hrw
+        · simp only [Option.map_eq_some_iff] at hrw
+          obtain ⟨xs, _, hx⟩ := hrw
+          subst hx; simp at hb; simp [hb]
+        · cases hrw
+      · simp only [Option.map_eq_some_iff] at hrw
+        obtain ⟨f, _, hx⟩ := hrw
+        subst hx; simp at hb; simp [hb]
+    · simp only [Option.some.injEq] at hrw
+      subst hrw; simp at hb
+  simp only [List.mem_append] at hb
+  rcases hb with ((((hb | hb) | hb) | hb) | hb) | hb
+  · split at hb <;> simp at hb; subst hb; simp [implicitExclude]
+  · split at hb <;> simp at hb; subst hb; simp [implicitExclude]
+  · split at hb <;> simp at hb; subst hb; simp [implicitExclude]
+  · split at hb <;> simp at hb; subst hb; simp [implicitExclude]
+  · rw [hrwk b hb]; simp [implicitExclude]
+  · split at hb <;> simp at hb; subst hb; simp [implicitExclude]
+
+/-- rows of one batch: one per interaction, each ending with that interaction's additional fields -/
+theorem specChunk_rows {σ : Type} {c : Config} {fl : Flags} (L : Learner σ V) (s : σ) (vs : List (View V R))
+    (r : σ × List (Call V) × List (Row V R)) (h : specChunk c fl L s vs = some r) :
+    r.2.2.length = vs.length ∧ ∀ vr ∈ vs.zip r.2.2,
+      ∃ pre : Row V R, vr.2 = pre ++ vr.1.extras.map (fun kv => (kv.1, Cell.fld kv.2)) ∧ ∀ b ∈ pre, b.1 ∈ implicitExclude := by
+  unfold specChunk at h
+  simp only [Option.bind_eq_some_iff, Option.map_eq_some_iff] at h
+  obtain ⟨evals, hev, args, _, rows, hrows, hr⟩ := h
+  subst hr
+  have hps : ∀ (np : Bool), (if np = true then List.map some (if np = true then predictS L s vs else (s, [])).2
+      else List.map (fun _ => (none : Option (Pred V))) vs).length = vs.length := by
+    intro np; cases np <;> simp [predictS_length]
+  have hevl : evals.length = vs.length := by
+    by_cases he : (c.eval != EvalMode.none) = true
+    · rw [if_pos he] at hev
+      simp only [Option.map_eq_some_iff] at hev
+      obtain ⟨es, hes, rfl⟩ := hev
+      rw [List.length_map, allSome_length _ _ hes, zip3With_length _ _ _ _ (hps _)]
+      cases (c.eval == EvalMode.ips && L.hasScore && !needPred c L.hasScore) <;> simp [scoreS_length]
+    · rw [if_neg he] at hev
+      simp only [Option.some.injEq] at hev
+      subst hev; simp
+  refine ⟨?_, ?_⟩
+  · simp only
+    rw [allSome_length _ _ hrows, zip3With_length _ _ _ _ (hps _) hevl]
+  · intro vr hvr
+    obtain ⟨p, er, hrow⟩ := allSome_zip3With _ _ _ _ _ hrows vr hvr
+    exact rowSB_extras hrow
+
+theorem zip_flatten_forall {α β : Type} (P : α × β → Prop) (xss : List (List α)) (yss : List (List β))
+    (hlen : xss.length = yss.length)
+    (h : ∀ xy ∈ xss.zip yss, xy.2.length = xy.1.length ∧ ∀ ab ∈ xy.1.zip xy.2, P ab) :
+    xss.flatten.length = yss.flatten.length ∧ ∀ ab ∈ xss.flatten.zip yss.flatten, P ab := by
+  induction xss generalizing yss with
+  | nil =>
+    cases yss with
+    | nil => simp
+    | cons y ys => simp at hlen
+  | cons xs xss ih =>
+    cases yss with
+    | nil => simp at hlen
+    | cons ys yss =>
+      have h0 := h (xs, ys) (by simp)
+      obtain ⟨ihl, ihp⟩ := ih yss (by simpa using hlen) (fun xy hxy => h xy (by simp [hxy]))
+      constructor
+      · simp [h0.1, ihl]
+      · intro ab hab
+        simp only [List.flatten_cons] at hab
+        rw [List.zip_append (by simp [h0.1])] at hab
+        simp only [List.mem_append] at hab
+        rcases hab with hab | hab
+        · exact h0.2 ab hab
+        · exact ihp ab hab
+
+/-- batched `order_strict` + shape of every batch: the trace is the concatenation, batch by batch in environment order, of
+(all predicts of the batch) ++ (all its scores) ++ (all its learns), rows of the batch in order within each part -/
+theorem order_strict_batched' {σ : Type} (c : Config) (L : Learner σ V) (n : Nat) (first : Dict (Fld V R))
+    (rest : List (Dict (Fld V R))) (s s' : σ) (calls : List (Call V)) (rows : List (Row V R)) (H : Hyp c L first rest)
+    (h : evaluate c L (some n) (first :: rest) s = .ok (s', calls, rows)) :
+    ∃ groups : List (List (Call V)), groups.length = (chunks n (first :: rest)).length ∧ calls = groups.flatten ∧
+      ∀ cg ∈ ((chunks n (first :: rest)).map (List.map view)).zip groups,
+        ∃ learns : List (Call V), (∀ x ∈ learns, Call.isLearn x = true) ∧ learns.length ≤ cg.1.length ∧
+          cg.2 = (if needPred c L.hasScore then cg.1.map (fun v => Call.predict v.ctx v.acts) else [])
+            ++ (if (c.eval == .ips && L.hasScore && !needPred c L.hasScore) then cg.1.map (fun v => Call.score v.ctx v.acts v.offAct) else [])
+            ++ learns ∧
+          ∀ vl ∈ cg.1.zip learns, Call.ctx vl.2 = vl.1.ctx := by
+  obtain ⟨full, hsp, _⟩ := evaluate_ok_specB' c L n first rest s s' calls rows H h
+  obtain ⟨st, h1, h2, _, h4⟩ := specRunB_steps L _ s _ hsp
+  simp only at h2
+  refine ⟨st.map (·.2.2.1), by simpa using h1, h2, ?_⟩
+  intro cg hcg
+  rw [List.zip_map_right] at hcg
+  simp only [List.mem_map] at hcg
+  obtain ⟨cst, hcst, rfl⟩ := hcg
+  obtain ⟨args, _, _, hshape⟩ := specChunk_state L cst.2.1 cst.1 _ (h4 cst hcst)
+  refine ⟨_, ?_, ?_, hshape, ?_⟩
+  · intro x hx
+    rw [List.mem_iff_getElem] at hx
+    obtain ⟨i, _, rfl⟩ := hx
+    simp [Call.isLearn]
+  · simp [List.length_zipWith]; omega
+  · intro vl hvl
+    rw [List.mem_iff_getElem] at hvl
+    obtain ⟨i, hi, rfl⟩ := hvl
+    simp [Call.ctx]
+
+theorem allSome_zipWith_some {α β γ : Type} (F : α → Option β → Option γ) (xs : List α) (ps : List β) (args : List γ)
+    (h : allSome (List.zipWith F xs (ps.map some)) = some args) :
+    ∀ xpa ∈ (xs.zip ps).zip args, F xpa.1.1 (some xpa.1.2) = some xpa.2 := by
+  induction xs generalizing ps args with
+  | nil => intro x hx; simp at hx
+  | cons x xs ih =>
+    cases ps with
+    | nil => intro y hy; simp at hy
+    | cons p ps =>
+      simp only [List.map_cons, List.zipWith_cons_cons, allSome] at h
+      cases hF : F x (some p) with
+      | none => rw [hF] at h; simp [allSome] at h
+      | some a =>
+        rw [hF] at h
+        simp only [allSome, Option.map_eq_some_iff] at h
+        obtain ⟨as, has, rfl⟩ := h
+        intro y hy
+        simp only [List.zip_cons_cons, List.mem_cons] at hy
+        rcases hy with hy | hy
+        · subst hy; exact hF
+        · exact ih ps as has y hy
+
+/-- batched `kwargs_roundtrip`: with on-policy learning every batch is (one predict per row, rows in order) then (one
+learn per row, rows in order); the j-th learn carries the j-th row's context and the action, probability and kwargs
+the learner answered for that row — answered in the state reached after predicting the earlier rows of the SAME
+batch from the state at the start of the batch (`predictS`) — and the environment's / IPS reward of that action -/
+theorem kwargs_roundtrip_batched' {σ : Type} (c : Config) (L : Learner σ V) (n : Nat) (first : Dict (Fld V R))
+    (rest : List (Dict (Fld V R))) (s s' : σ) (calls : List (Call V)) (rows : List (Row V R)) (H : Hyp c L first rest)
+    (hl : c.learn = .on ∨ c.learn = .ips)
+    (h : evaluate c L (some n) (first :: rest) s = .ok (s', calls, rows)) :
+    ∃ steps : List (σ × List (Call V)), steps.length = (chunks n (first :: rest)).length ∧ calls = (steps.map (·.2)).flatten ∧
+      ∀ cst ∈ ((chunks n (first :: rest)).map (List.map view)).zip steps,
+        ∃ args : List (Option V × Option Rat × Option Rat × Dict V),
+          cst.2.2 = cst.1.map (fun v => Call.predict v.ctx v.acts)
+            ++ List.zipWith (fun (v : View V R) a => Call.learn v.ctx a.1 a.2.1 a.2.2.1 a.2.2.2) cst.1 args ∧
+          args.length = cst.1.length ∧
+          ∀ vpa ∈ (cst.1.zip (predictS L cst.2.1 cst.1).2).zip args,
+            ∃ rew, (if c.learn = .on then envReward vpa.1.1 vpa.1.2.action else ipsReward vpa.1.1 (some vpa.1.2.action)) = some rew ∧
+              vpa.2 = (some vpa.1.2.action, some rew, vpa.1.2.prob, vpa.1.2.kw) := by
+  obtain ⟨full, hsp, _⟩ := evaluate_ok_specB' c L n first rest s s' calls rows H h
+  obtain ⟨st, h1, h2, _, h4⟩ := specRunB_steps L _ s _ hsp
+  simp only at h2
+  have hnp : needPred c L.hasScore = true := by rcases hl with hl | hl <;> simp [needPred, hl]
+  refine ⟨st.map (fun x => (x.1, x.2.2.1)), by simpa using h1, by simpa [Function.comp_def] using h2, ?_⟩
+  intro cst hcst
+  rw [List.zip_map_right] at hcst
+  simp only [List.mem_map] at hcst
+  obtain ⟨cs, hcs, rfl⟩ := hcst
+  obtain ⟨args, hargs, _, hshape⟩ := specChunk_state L cs.2.1 cs.1 _ (h4 cs hcs)
+  rw [hnp] at hshape hargs
+  simp only [if_true, Bool.not_true, Bool.and_false, Bool.false_eq_true, if_false, List.append_nil] at hshape hargs
+  rcases hargs with ⟨h0, _⟩ | ⟨_, hall⟩
+  · rcases hl with hl | hl <;> rw [hl] at h0 <;> cases h0
+  · refine ⟨args, hshape, ?_, ?_⟩
+    · have := allSome_length _ _ hall
+      simp only [List.length_zipWith, List.length_map, predictS_length, Nat.min_self] at this
+      exact this
+    · intro vpa hvpa
+      have := allSome_zipWith_some (learnArgsS c) cs.1 (predictS L cs.2.1 cs.1).2 args hall vpa hvpa
+      rcases hl with hl | hl
+      · simp only [learnArgsS, hl, Option.map_eq_some_iff] at this
+        obtain ⟨rew, hrew, heq⟩ := this
+        exact ⟨rew, by simp [hl, hrew], heq.symm⟩
+      · simp only [learnArgsS, hl, Option.map_eq_some_iff] at this
+        obtain ⟨rew, hrew, heq⟩ := this
+        exact ⟨rew, by simp [hl, hrew], heq.symm⟩
+
+/-- batched `extra_fields_carried` / one row per interaction -/
+theorem extra_fields_carried_batched' {σ : Type} (c : Config) (L : Learner σ V) (n : Nat) (hn : 0 < n) (first : Dict (Fld V R))
+    (rest : List (Dict (Fld V R))) (s s' : σ) (calls : List (Call V)) (rows : List (Row V R)) (H : Hyp c L first rest)
+    (h : evaluate c L (some n) (first :: rest) s = .ok (s', calls, rows)) :
+    ∃ full : List (Row V R), full.length = (first :: rest).length ∧ rows = full.filter (fun o => !o.isEmpty) ∧
+      ∀ vr ∈ ((first :: rest).map view).zip full,
+        ∃ pre : Row V R, vr.2 = pre ++ vr.1.extras.map (fun kv => (kv.1, Cell.fld kv.2)) ∧ ∀ b ∈ pre, b.1 ∈ implicitExclude := by
+  obtain ⟨full, hsp, hrows⟩ := evaluate_ok_specB' c L n first rest s s' calls rows H h
+  obtain ⟨st, h1, _, h3, h4⟩ := specRunB_steps L _ s _ hsp
+  simp only at h3
+  have key := zip_flatten_forall
+    (fun vr : View V R × Row V R => ∃ pre : Row V R, vr.2 = pre ++ vr.1.extras.map (fun kv => (kv.1, Cell.fld kv.2)) ∧ ∀ b ∈ pre, b.1 ∈ implicitExclude)
+    ((chunks n (first :: rest)).map (List.map view)) (st.map (·.2.2.2)) (by simpa using h1.symm)
+    (by
+      intro xy hxy
+      rw [List.zip_map_right] at hxy
+      simp only [List.mem_map] at hxy
+      obtain ⟨cs, hcs, rfl⟩ := hxy
+      exact specChunk_rows L cs.2.1 cs.1 _ (h4 cs hcs))
+  have hfl : ((chunks n (first :: rest)).map (List.map view)).flatten = (first :: rest).map view := by
+    rw [← List.map_flatten, chunks_flatten n hn]
+  rw [hfl, ← h3] at key
+  exact ⟨full, by simpa using key.1.symm, hrows, key.2⟩
+
+/-! ### batched = un-batched up to the grouping of calls (history-independent learners) -/
+
+def predC (c : Config) (hs : Bool) (v : View V R) : List (Call V) :=
+  if needPred c hs then [Call.predict v.ctx v.acts] else []
+
+def scoreC (c : Config) (hs : Bool) (v : View V R) : List (Call V) :=
+  if (c.eval == .ips && hs && !needPred c hs) then [Call.score v.ctx v.acts v.offAct] else []
+
+theorem map_eq_flatMap_single {α β : Type} (f : α → β) (l : List α) : l.map f = l.flatMap (fun x => [f x]) := by
+  induction l with
+  | nil => rfl
+  | cons x xs ih => simp [ih]
+
+theorem flatMap_nil_fun {α β : Type} (l : List α) : l.flatMap (fun _ => ([] : List β)) = [] := by
+  induction l with
+  | nil => rfl
+  | cons x xs ih => simp [ih]
+
+theorem specRun_calls_closed {σ : Type} {c : Config} {fl : Flags} {L : Learner σ V} {f g} (ho : Oblivious L f g)
+    (vs : List (View V R)) (s : σ) (r : σ × List (Call V) × List (Row V R)) (h : specRun c fl L s vs = some r) :
+    r.2.1 = vs.flatMap (fun v => predC c L.hasScore v ++ scoreC c L.hasScore v ++ learnCallsO c L.hasScore f v) := by
+  induction vs generalizing s r with
+  | nil => simp only [specRun, Option.some.injEq] at h; subst h; rfl
+  | cons v vs ih =>
+    simp only [specRun, Option.bind_eq_some_iff, Option.map_eq_some_iff] at h
+    obtain ⟨r1, h1, r2, h2, hr⟩ := h
+    subst hr
+    obtain ⟨lc, hcs, hlc⟩ := specInter_calls L s v r1 h1
+    have hl : lc = learnCallsO c L.hasScore f v := by
+      rcases hlc with ⟨hn, h0⟩ | ⟨hn, a, ha, h0⟩
+      · subst h0; simp [learnCallsO, hn]
+      · subst h0
+        have hne : (c.learn != .none) = true := by simpa [bne] using hn
+        rw [ho.pred] at ha
+        simp [learnCallsO, hne, ha]
+    simp only [List.flatMap_cons, ih r1.1 r2 h2, hcs, hl, predC, scoreC]
+
+theorem specRunB_calls_closed {σ : Type} {c : Config} {fl : Flags} {L : Learner σ V} {f g} (ho : Oblivious L f g)
+    (chs : List (List (View V R))) (s : σ) (r : σ × List (Call V) × List (Row V R)) (h : specRunB c fl L s chs = some r) :
+    r.2.1 = chs.flatMap (fun ch => ch.flatMap (predC c L.hasScore) ++ ch.flatMap (scoreC c L.hasScore)
+      ++ ch.flatMap (learnCallsO c L.hasScore f)) := by
+  induction chs generalizing s r with
+  | nil => simp only [specRunB, Option.some.injEq] at h; subst h; rfl
+  | cons ch rest ih =>
+    simp only [specRunB, Option.bind_eq_some_iff, Option.map_eq_some_iff] at h
+    obtain ⟨r1, h1, r2, h2, hr⟩ := h
+    subst hr
+    obtain ⟨args, hargs, _, hcalls⟩ := specChunk_state L s ch r1 h1
+    have hL : List.zipWith (fun (v : View V R) a => Call.learn v.ctx a.1 a.2.1 a.2.2.1 a.2.2.2) ch args
+        = ch.flatMap (learnCallsO c L.hasScore f) := by
+      rcases hargs with ⟨hn, h0⟩ | ⟨hn, h0⟩
+      · subst h0
+        have : ∀ v : View V R, learnCallsO c L.hasScore f v = [] := by intro v; simp [learnCallsO, hn]
+        simp [this]
+      · have hne : (c.learn != .none) = true := by simpa [bne] using hn
+        have hps : (if needPred c L.hasScore = true then List.map some (predictS L s ch).2 else List.map (fun _ => none) ch)
+            = ch.map (fun v => if needPred c L.hasScore then some (f v.ctx v.acts) else none) := by
+          rw [predictS_oblivious ho]
+          cases needPred c L.hasScore <;> simp
+        rw [hps] at h0
+        rw [zipWith_allSome (learnArgsS c) (fun (v : View V R) a => Call.learn v.ctx a.1 a.2.1 a.2.2.1 a.2.2.2) _ ch args h0]
+        congr 1
+        funext v
+        simp only [learnCallsO, hne, if_true]
+        cases learnArgsS c v (if needPred c L.hasScore = true then some (f v.ctx v.acts) else none) <;> rfl
+    have hP : (if needPred c L.hasScore = true then ch.map (fun v => Call.predict v.ctx v.acts) else [])
+        = ch.flatMap (predC c L.hasScore) := by
+      cases hn : needPred c L.hasScore
+      · have : predC c L.hasScore = fun (_ : View V R) => ([] : List (Call V)) := by funext v; simp [predC, hn]
+        rw [this, flatMap_nil_fun]; simp
+      · have : predC c L.hasScore = fun (v : View V R) => [Call.predict v.ctx v.acts] := by funext v; simp [predC, hn]
+        rw [this]; simp only [if_true]; exact map_eq_flatMap_single _ _
+    have hS : (if (c.eval == EvalMode.ips && L.hasScore && !needPred c L.hasScore) = true then
+          ch.map (fun v => Call.score v.ctx v.acts v.offAct) else []) = ch.flatMap (scoreC c L.hasScore) := by
+      cases hb : (c.eval == EvalMode.ips && L.hasScore && !needPred c L.hasScore)
+      · have : scoreC c L.hasScore = fun (_ : View V R) => ([] : List (Call V)) := by funext v; simp only [scoreC, hb, Bool.false_eq_true, if_false]
+        rw [this, flatMap_nil_fun]; simp
+      · have : scoreC c L.hasScore = fun (v : View V R) => [Call.score v.ctx v.acts v.offAct] := by funext v; simp only [scoreC, hb, if_true]
+        rw [this]; simp only [if_true]; exact map_eq_flatMap_single _ _
+    simp only [List.flatMap_cons, ih r1.1 r2 h2, hcalls, hL, hP, hS]
+
+/-- for a history-independent learner a batched pass over Batch(n) is the un-batched pass with the calls regrouped:
+un-batched, interaction by interaction, (predict? score? learn?); batched, batch by batch, (all predicts) (all scores)
+(all learns) — the same calls with the same arguments -/
+theorem batched_trace_regrouped' {σ : Type} {L : Learner σ V} {f : Option V → Option (List V) → Pred V}
+    {g : Option V → Option (List V) → Option V → Rat} (ho : Oblivious L f g) (c : Config) (n : Nat)
+    (first : Dict (Fld V R)) (rest : List (Dict (Fld V R))) (s sb su : σ) (cb cu : List (Call V)) (rb ru : List (Row V R))
+    (H : Hyp c L first rest)
+    (hb : evaluate c L (some n) (first :: rest) s = .ok (sb, cb, rb))
+    (hu : evaluate c L none (first :: rest) s = .ok (su, cu, ru)) :
+    cu = ((first :: rest).map view).flatMap
+        (fun v => predC c L.hasScore v ++ scoreC c L.hasScore v ++ learnCallsO c L.hasScore f v) ∧
+    cb = ((chunks n (first :: rest)).map (List.map view)).flatMap
+        (fun ch => ch.flatMap (predC c L.hasScore) ++ ch.flatMap (scoreC c L.hasScore) ++ ch.flatMap (learnCallsO c L.hasScore f)) := by
+  obtain ⟨fb, hsb, _⟩ := evaluate_ok_specB' c L n first rest s sb cb rb H hb
+  obtain ⟨fu, hsu, _⟩ := evaluate_ok_spec' c L first rest s su cu ru H.wf H.valid H.seq hu
+  exact ⟨specRun_calls_closed ho _ s _ hsu, specRunB_calls_closed ho _ s _ hsb⟩
+
+/-! ## learning_info in batched passes -/
+
+/-- a batched pass with `learning_info`, seen without the info, is the batched pass of the model the refinement
+theorems are about -/
+theorem stepChunk_eq_IB {σ : Type} (c : Config) (fl : Flags) (L : InfoLearner σ V) (s : σ) (ch : List (Dict (Fld V R))) :
+    stepChunk c fl L.toLearner true s ch =
+      (stepChunkIB c fl L s ch).map (fun r => (r.1, r.2.1, r.2.2.1.filter (fun o => !o.isEmpty))) := by
+  unfold stepChunk stepChunkIB
+  cases prepAll c fl ch with
+  | error e => rfl
+  | ok rows =>
+    simp only [Except.bind]
+    generalize evalsOf c _ rows _ _ = E
+    cases E with
+    | error e => rfl
+    | ok evals =>
+      simp only
+      generalize learnsOf c L.toLearner _ rows _ = LL
+      cases LL with
+      | error e => rfl
+      | ok ll =>
+        simp only
+        generalize mapM₃ (mkRow c fl (shouldPred c L.hasScore) true) rows _ evals = M
+        cases M <;> rfl
+
+variable [Subscript V]
+
+/-- what the rows of a batched evaluation receive from `learning_info`: batch by batch, every row of the batch gets the
+whole info written during that batch's pass (`batchInfo`: all predicts in row order, then all learns, later writes
+updating earlier ones), each value indexed by the row's position in the batch when it is subscriptable
+(`indexInfo`), merged into the row the interaction has anyway; state and calls are those without info -/
+theorem runIB_rows {σ : Type} (c : Config) (fl : Flags) (L : InfoLearner σ V) (chs : List (List (Dict (Fld V R)))) (s : σ)
+    (r : σ × List (Call V) × List (Row V R)) (h : runIB c fl L s chs = .ok r) :
+    ∃ steps : List (σ × σ × List (Call V) × List (Row V R) × Dict V), steps.length = chs.length ∧
+      r.2.1 = (steps.map (·.2.2.1)).flatten ∧
+      r.2.2 = (steps.map (fun st => (mergeIndexed st.2.2.2.2 0 st.2.2.2.1).filter (fun o => !o.isEmpty))).flatten ∧
+      ∀ cst ∈ chs.zip steps, stepChunkIB c fl L cst.2.1 cst.1 = .ok cst.2.2 ∧
+        stepChunk c fl L.toLearner true cst.2.1 cst.1
+          = .ok (cst.2.2.1, cst.2.2.2.1, cst.2.2.2.2.1.filter (fun o => !o.isEmpty)) := by
+  induction chs generalizing s r with
+  | nil =>
+    simp only [runIB, Except.ok.injEq] at h
+    subst h
+    exact ⟨[], rfl, rfl, rfl, by simp⟩
+  | cons ch rest ih =>
+    simp only [runIB] at h
+    obtain ⟨r1, h1, h⟩ := Except.bind_eq_ok h
+    obtain ⟨r2, h2, hr⟩ := Except.map_eq_ok h
+    subst hr
+    obtain ⟨st, hs1, hs2, hs3, hs4⟩ := ih r1.1 r2 h2
+    refine ⟨(s, r1) :: st, by simp [hs1], by simp [hs2], by simp [hs3], ?_⟩
+    intro cst hcst
+    simp only [List.zip_cons_cons, List.mem_cons] at hcst
+    rcases hcst with hcst | hcst
+    · subst hcst
+      refine ⟨h1, ?_⟩
+      rw [stepChunk_eq_IB, h1]; rfl
+    · exact hs4 cst hcst
+
+theorem info_batched_rows' {σ : Type} (c : Config) (L : InfoLearner σ V) (n : Nat) (first : Dict (Fld V R))
+    (rest : List (Dict (Fld V R))) (s s' : σ) (calls : List (Call V)) (rows : List (Row V R))
+    (h : evaluateIB c L n (first :: rest) s = .ok (s', calls, rows)) :
+    ∃ steps : List (σ × σ × List (Call V) × List (Row V R) × Dict V), steps.length = (chunks n (first :: rest)).length ∧
+      calls = (steps.map (·.2.2.1)).flatten ∧
+      rows = (steps.map (fun st => (mergeIndexed st.2.2.2.2 0 st.2.2.2.1).filter (fun o => !o.isEmpty))).flatten ∧
+      ∀ cst ∈ (chunks n (first :: rest)).zip steps,
+        stepChunkIB c (mkFlags first) L cst.2.1 cst.1 = .ok cst.2.2 ∧
+        stepChunk c (mkFlags first) L.toLearner true cst.2.1 cst.1
+          = .ok (cst.2.2.1, cst.2.2.2.1, cst.2.2.2.2.1.filter (fun o => !o.isEmpty)) := by
+  simp only [evaluateIB] at h
+  by_cases hm : (!(missingKeys c L.hasScore first).isEmpty) = true
+  · rw [if_pos hm] at h; cases h
+  · rw [if_neg hm] at h
+    have := runIB_rows c (mkFlags first) L (chunks n (first :: rest)) s (s', calls, rows) (ofExcept_eq_ok h)
+    exact this
+
+/-! ## environments whose interactions do not all have the keys of the first -/
+
+omit [Subscript V] in
+/-- a reserved key the FIRST interaction lacks is ignored in every later interaction: the loop reads `None` -/
+theorem readRow_ignores {c : Config} {fl : Flags} {d : Dict (Fld V R)} {r : RowIn V R} (h : readRow c fl d = .ok r) :
+    (fl.hasContext = false → r.ctx = none) ∧ (fl.hasActions = false → r.acts = none) ∧
+    (fl.hasAction = false → r.offAct = none) ∧ (fl.hasReward = false → r.offRwd = none) ∧ (fl.hasProb = false → r.offPr = none) := by
+  simp only [readRow, bind, Except.bind, pure, Except.pure] at h
+  repeat' split at h
+  all_goals first
+    | (simp only [Except.ok.injEq] at h; subst h
+       refine ⟨?_, ?_, ?_, ?_, ?_⟩ <;> intro hf <;> simp_all [whenHas])
+    | cases h
+
+omit [Subscript V] in
+/-- a reserved key the first interaction HAS and a later one lacks stops the evaluation (`KeyError` in the code) -/
+theorem readRow_missing_context {c : Config} {fl : Flags} {d : Dict (Fld V R)} (hf : fl.hasContext = true)
+    (hd : d.get? "context" = none) : readRow c fl d = .error (.keyError "context") := by
+  simp [readRow, whenHas, hf, hd, getVal, bind, Except.bind]
+
 end Coba.C06
